@@ -39,6 +39,10 @@ def badRootChild : Model :=
 def badRootParent : Model :=
   { model with nodes := model.nodes.set 0 { (model.nodes[0]!) with parent := some 0 } }
 
+/-- the same model with `#k` signed by `#p`: a signing loop -/
+def signLoop : Model :=
+  { model with nodes := model.nodes.set 4 { (model.nodes[4]!) with signCons := [2] } }
+
 /-- no user functions -/
 def noFns : FnEnv := fun _ => none
 
